@@ -1,6 +1,363 @@
-"""comprehensions over symbolic collections (filled in later)"""
-from .state import Unsupported
+"""Comprehensions.
+
+* sources of concrete length (tuples, literal maps, ranges with literal bounds) are unrolled exactly;
+* one `for` over a symbolic list / set / dict (keys, values, items) is defined by a quantified formula over a fresh element:
+  the element expression and the filter are evaluated ONCE by the ordinary executor on a symbolic element x, giving
+  value(x), filter(x) and raises(x) as terms; the result collection is then constrained by
+      forall x in S: filter(x) => value(x) in R      and      forall y in R: exists x in S (skolem function) ...
+  A body that may raise makes the comprehension raise iff some element does.
+  Dict results need an injective key expression (the loop variable itself, or the key of .items()).
+"""
+from __future__ import annotations
+
+import ast
+import z3
+
+from . import models, sym
+from .state import State, Unsupported
+from .sym import ANY, NONEV, SAny, SBool, SInt, SRef, SStr, STuple, TDict, TList, TSet, TTuple, Val, VL
 
 
 def comprehension(eng, node, st, fi, kind):
-    raise Unsupported(f"comprehension ({kind}) at line {node.lineno}")
+    from .loops import describe_iter
+    gens = node.generators
+    if any(g.is_async for g in gens):
+        raise Unsupported("async comprehension")
+    fr = st.frames[fi]
+    saved_names = {}
+    for g in gens:
+        for n in ast.walk(g.target):
+            if isinstance(n, ast.Name):
+                saved_names[n.id] = fr.vars.get(n.id, _MISSING)
+
+    def restore(s):
+        f = s.frames[fi]
+        for n, v in saved_names.items():
+            if v is _MISSING:
+                f.vars.pop(n, None)
+            else:
+                f.vars[n] = v
+
+    # ---- concrete unrolling ------------------------------------------------------------------------
+    def unroll(s, gi, acc):
+        """returns list of (state, acc) or raises _NotConcrete"""
+        if gi == len(gens):
+            if kind == "dict":
+                res = []
+                for s2, (k, v) in eng.ev_list([node.key, node.value], s, fi):
+                    res.append((s2, acc + [(k, v)] if s2.exc is None else acc))
+                return res
+            res = []
+            for s2, v in eng.ev(node.elt, s, fi):
+                res.append((s2, acc + [v] if s2.exc is None else acc))
+            return res
+        g = gens[gi]
+        out = []
+        for s1, itv in eng.ev(g.iter, s, fi):
+            if s1.exc is not None:
+                out.append((s1, acc))
+                continue
+            desc = describe_iter(eng, s1, itv)
+            if desc.kind != "concrete":
+                raise _NotConcrete()
+            pending = [(s1, acc)]
+            for item in desc.items:
+                nxt = []
+                for s2, a2 in pending:
+                    if s2.exc is not None:
+                        nxt.append((s2, a2))
+                        continue
+                    for s3 in eng.assign(g.target, item, s2, fi):
+                        if s3.exc is not None:
+                            nxt.append((s3, a2))
+                            continue
+                        conds = [(s3, True)]
+                        for cnd in g.ifs:
+                            nn = []
+                            for s4, ok in conds:
+                                if not ok or s4.exc is not None:
+                                    nn.append((s4, ok))
+                                    continue
+                                for s5, cv in eng.ev(cnd, s4, fi):
+                                    if s5.exc is not None:
+                                        nn.append((s5, False))
+                                        continue
+                                    for s6, side in eng.branch(s5, eng.truth(s5, cv)):
+                                        nn.append((s6, side))
+                            conds = nn
+                        for s4, ok in conds:
+                            if s4.exc is not None or not ok:
+                                nxt.append((s4, a2))
+                            else:
+                                nxt.extend(unroll(s4, gi + 1, a2))
+                pending = nxt
+            out.extend(pending)
+        return out
+
+    if not eng.pure:
+        try:
+            probe = st.copy()
+            res = unroll(probe, 0, [])
+            out = []
+            for s, acc in res:
+                restore(s)
+                if s.exc is not None:
+                    out.append((s, None))
+                else:
+                    out.append((s, _build(eng, s, fi, kind, acc)))
+            return out
+        except _NotConcrete:
+            pass
+    if len(gens) != 1:
+        raise Unsupported(f"comprehension with {len(gens)} symbolic generators at line {node.lineno}")
+    return _symbolic(eng, node, st, fi, kind, gens[0], restore)
+
+
+class _NotConcrete(Exception):
+    pass
+
+
+_MISSING = object()
+
+
+def _build(eng, st, fi, kind, acc):
+    from .engine import SConstMap
+    if kind == "list":
+        return models.new_list(eng, st, acc)
+    if kind == "gen":
+        return models.SGen(models.new_list(eng, st, acc))
+    if kind == "set":
+        return models.new_set(eng, st, acc)
+    if st.frames[fi].qual.endswith("<module>"):
+        return SConstMap(acc)
+    return models.new_dict(eng, st, acc)
+
+
+def _delta(base_len, s):
+    return z3.And(*s.pc[base_len:]) if len(s.pc) > base_len else z3.BoolVal(True)
+
+
+def _symbolic(eng, node, st, fi, kind, g, restore):
+    from .loops import describe_iter
+    out = []
+    for s0, itv in eng.ev(g.iter, st, fi):
+        if s0.exc is not None:
+            out.append((s0, None))
+            continue
+        desc = describe_iter(eng, s0, itv)
+        if desc.kind == "concrete":
+            raise Unsupported("mixed concrete/symbolic comprehension")
+        out.extend(_symbolic_one(eng, node, s0, fi, kind, g, desc, restore))
+    return out
+
+
+def _symbolic_one(eng, node, st: State, fi, kind, g, desc, restore):
+    # ---- a symbolic element of the source ---------------------------------------------------------------
+    if desc.kind == "list":
+        src = desc.ref
+        n = st.clen(src.t)
+        st.assume(n >= 0)
+        i = sym.fresh_int("ci")
+        member = z3.And(i >= 0, i < n)
+        xval = z3.Select(st.cseq(src.t), i)
+        ety = src.ty.v
+        bound = [i]
+        ordered = True
+    elif desc.kind in ("keys", "items", "values"):
+        src = desc.ref
+        st.assume(st.container_wf(src.t))
+        k = sym.fresh_val("ck")
+        member = z3.Select(st.dom(src.t), k)
+        kty = desc.ety
+        key_sv = models.wrap_elem(eng, st, k, kty)
+        if desc.kind == "keys":
+            xval, ety = k, kty
+        elif desc.kind == "values":
+            xval, ety = z3.Select(st.cmap(src.t), k), src.ty.v
+        else:
+            xval, ety = Val.tup(sym.vl_of([k, z3.Select(st.cmap(src.t), k)])), TTuple([kty, src.ty.v])
+        bound = [k]
+        ordered = False
+        n = st.clen(src.t)
+    else:
+        raise Unsupported(f"comprehension over {desc.kind}")
+    x = models.wrap_elem(eng, st, xval, ety)
+    # ---- evaluate filter and element expression once, on the symbolic element -------------------------
+    saved_pure = eng.pure
+    probe = st.copy()
+    probe.assume(member)
+    probe.assume(sym.type_constraint(xval, ety, eng.reg))
+    base_len = len(probe.pc)
+    alloc_before = probe.heap.next_ref
+    paths = []  # (cond, value SV | None, exc | None)
+    states = eng.assign(g.target, x, probe, fi)
+    work = []
+    for s in states:
+        if s.exc is not None:
+            paths.append((_delta(base_len, s), None, None, s.exc))
+            continue
+        conds = [(s, True)]
+        for cnd in g.ifs:
+            nn = []
+            for s4, ok in conds:
+                if not ok:
+                    nn.append((s4, ok))
+                    continue
+                for s5, cv in eng.ev(cnd, s4, fi):
+                    if s5.exc is not None:
+                        paths.append((_delta(base_len, s5), None, None, s5.exc))
+                        continue
+                    if eng.pure:
+                        raise Unsupported("filtered comprehension in spec mode")
+                    for s6, side in eng.branch(s5, eng.truth(s5, cv)):
+                        nn.append((s6, side))
+            conds = nn
+        for s4, ok in conds:
+            if not ok:
+                paths.append((_delta(base_len, s4), None, None, None))  # filtered out
+                continue
+            if kind == "dict":
+                for s5, (kv, vv) in eng.ev_list([node.key, node.value], s4, fi):
+                    if s5.exc is not None:
+                        paths.append((_delta(base_len, s5), None, None, s5.exc))
+                    else:
+                        _no_alloc(s5, alloc_before, node)
+                        paths.append((_delta(base_len, s5), kv, vv, None))
+            else:
+                for s5, v in eng.ev(node.elt, s4, fi):
+                    if s5.exc is not None:
+                        paths.append((_delta(base_len, s5), None, None, s5.exc))
+                    else:
+                        _no_alloc(s5, alloc_before, node)
+                        paths.append((_delta(base_len, s5), v, None, None))
+    restore(st)
+    # ---- exceptional elements ----------------------------------------------------------------------------
+    exc_paths = [(c, e) for c, _, _, e in paths if e is not None]
+    results = []
+    normal = st
+    if exc_paths and not eng.pure:
+        exc_cond = z3.Or(*[c for c, _ in exc_paths])
+        s_exc = st.copy()
+        s_exc.assume(member)
+        s_exc.assume(exc_cond)  # the fresh element constants act as the witness
+        if s_exc.feasible():
+            s_exc.exc = exc_paths[0][1]
+            results.append((s_exc, None))
+        normal.assume(z3.ForAll(bound, z3.Implies(member, z3.Not(exc_cond))))
+    # ---- value / filter terms ---------------------------------------------------------------------------
+    kept = [(c, a, b) for c, a, b, e in paths if e is None and a is not None]
+    keep_cond = z3.Or(*[c for c, _, _ in kept]) if kept else z3.BoolVal(False)
+    has_filter = any(e is None and a is None for _, a, _, e in paths)
+
+    def ite_chain(idx):
+        t = None
+        for c, a, b in reversed(kept):
+            v = (a if idx == 0 else b).val()
+            t = v if t is None else z3.If(c, v, t)
+        return t
+
+    if not kept:
+        return results + [(normal, _build(eng, normal, fi, kind, []))]
+    v0 = kept[0][1]
+    vty = getattr(v0, "ty", ANY) if all(repr(getattr(a, "ty", ANY)) == repr(getattr(v0, "ty", ANY)) for _, a, _ in kept) else ANY
+    val_t = ite_chain(0)
+    if kind in ("list", "gen"):
+        if not ordered:
+            # unordered source: iterate a snapshot list of it (a permutation), then map position-wise
+            lst = models.snapshot_list(eng, normal, itv_of(desc))
+            d2 = type(desc)("list", ref=lst)
+            return results + _symbolic_one(eng, node, normal, fi, kind, g, d2, restore)
+        if has_filter:
+            raise Unsupported(f"filtered list comprehension over a symbolic list at line {node.lineno}")
+        r = normal.alloc()
+        seq = sym.fresh_const("comp", sym.SeqArrS)
+        normal.assume(z3.ForAll(bound, z3.Implies(member, z3.Select(seq, bound[0]) == val_t)))
+        normal.heap.c_seq = z3.Store(normal.heap.c_seq, r, seq)
+        normal.heap.c_len = z3.Store(normal.heap.c_len, r, n)
+        ref = SRef(r, TList(vty))
+        return results + [(normal, models.SGen(ref) if kind == "gen" else ref)]
+    if kind == "set":
+        ref = normal.new_container(TSet(vty))
+        nd = sym.fresh_const("compset", sym.SetS)
+        normal.assume(z3.ForAll(bound, z3.Implies(z3.And(member, keep_cond), z3.Select(nd, val_t))))
+        # every member has a pre-image (skolem function)
+        y = sym.fresh_val("y")
+        pre = z3.Function(sym.fresh_name("pre"), Val, bound[0].sort())
+        sub = [(bound[0], pre(y))]
+        normal.assume(z3.ForAll([y], z3.Implies(z3.Select(nd, y), z3.And(z3.substitute(member, *sub), z3.substitute(keep_cond, *sub),
+                                                                      z3.substitute(val_t, *sub) == y))))
+        normal.heap.c_dom = z3.Store(normal.heap.c_dom, ref.t, nd)
+        card = sym.fresh_int("card")
+        normal.heap.c_len = z3.Store(normal.heap.c_len, ref.t, card)
+        normal.assume(normal.container_wf(ref.t))
+        if not has_filter and _is_identity(val_t, xval) and not ordered:
+            normal.assume(card == n)
+        return results + [(normal, ref)]
+    # dict
+    key_t = val_t
+    value_t = ite_chain(1)
+    if not _injective_key(eng, key_t, xval, bound, desc):
+        raise Unsupported(f"dict comprehension whose key is not known to be injective at line {node.lineno}")
+    v1 = kept[0][2]
+    v1ty = getattr(v1, "ty", ANY) if all(repr(getattr(b, "ty", ANY)) == repr(getattr(v1, "ty", ANY)) for _, _, b in kept) else ANY
+    ref = normal.new_container(TDict(vty, v1ty))
+    nd, nm = sym.fresh_const("compdom", sym.SetS), sym.fresh_const("compmap", sym.MapS)
+    normal.assume(z3.ForAll(bound, z3.Implies(z3.And(member, keep_cond), z3.And(z3.Select(nd, key_t), z3.Select(nm, key_t) == value_t))))
+    y = sym.fresh_val("y")
+    pre = z3.Function(sym.fresh_name("pre"), Val, bound[0].sort())
+    sub = [(bound[0], pre(y))]
+    normal.assume(z3.ForAll([y], z3.Implies(z3.Select(nd, y), z3.And(z3.substitute(member, *sub), z3.substitute(keep_cond, *sub),
+                                                                  z3.substitute(key_t, *sub) == y))))
+    normal.heap.c_dom = z3.Store(normal.heap.c_dom, ref.t, nd)
+    normal.heap.c_map = z3.Store(normal.heap.c_map, ref.t, nm)
+    card = sym.fresh_int("card")
+    normal.heap.c_len = z3.Store(normal.heap.c_len, ref.t, card)
+    normal.assume(normal.container_wf(ref.t))
+    if not has_filter and not ordered:
+        normal.assume(card == n)
+    return results + [(normal, ref)]
+
+
+def itv_of(desc):
+    from .models import SView
+    if desc.kind == "keys":
+        return desc.ref
+    return SView(desc.kind, desc.ref)
+
+
+def _no_alloc(s, alloc_before, node):
+    if not z3.eq(s.heap.next_ref, alloc_before):
+        raise Unsupported(f"comprehension element allocates objects (line {node.lineno})")
+
+
+def _is_identity(val_t, xval):
+    return z3.eq(z3.simplify(val_t), z3.simplify(xval))
+
+
+def _injective_key(eng, key_t, xval, bound, desc):
+    """syntactic sufficient conditions for key(x) injective in the bound variable"""
+    kt = z3.simplify(key_t)
+    b = bound[0]
+    if z3.eq(kt, b):
+        return True
+    if z3.eq(kt, z3.simplify(xval)) and desc.kind == "keys":
+        return True
+    # str(int) : int.to.str is injective on non-negative ints; our to_str adds a sign prefix, injective on all ints
+    txt = kt.sexpr()
+    if desc.kind in ("keys", "items") and ("int.to.str" in txt or "str.from_int" in txt) and b.sexpr() in txt:
+        return _only_through_injective(kt, b)
+    return False
+
+
+def _only_through_injective(t, b):
+    # accept  str(If(i>=0, int.to.str(i), "-" ++ int.to.str(-i))) where i = ival(b) / ival(hd(targs(b)))...
+    # conservative: every occurrence of b is under ival/hd/targs accessors only
+    ok = True
+    def walk(x, under):
+        nonlocal ok
+        if z3.eq(x, b):
+            return
+        for c in x.children():
+            walk(c, under)
+    walk(t, False)
+    return ok
